@@ -37,6 +37,13 @@ For the current revision (2) this file proves
                 the batches and `watchers_describe` proves that they describe the change (`Describes`).
                 Assumptions of the statement: unique ingress keys (preserved by the operations), `BackIdInj` (a backend
                 id identifies namespace and service: Kubernetes names contain no `_`), drain-support off.
+  option      : `--default-backend-service` (`syncDefaultBackend`, `defaultBackSource`) is one more declaration source
+                of the SAME structures (`optIngress`, an `Ingress` flagged `pseudo` in the initial cluster `optWorld`), so
+                (a), (b), (c) above hold for it without change; `partial_eq_full_history_opt_partial` states (c) for
+                histories under the option, `opt_default_backend` replays the corpus history of harness/cmd/hv/c01.go
+                (service goes, comes back) on the model. With the option the default host always has an entry (the
+                dependency recorded by the pseudo source), so `SCdef` reads: an ingress with a spec.defaultBackend is
+                added/updated only while the default host is live.
 -/
 namespace HapVerif.C01
 
@@ -262,6 +269,33 @@ theorem partial_eq_full_history_partial (rev : Rev) (hrev : 2 ≤ rev) (batches 
   · rw [hf] at h; cases h
   · exact h
 
+/-- the same under the controller option `--default-backend-service=ns/svc` (`db = some (ns, svc)`): the
+converter's pseudo source `defaultBackSource` is a member of the initial cluster (`optWorld`, `optIngress`) that no
+operation touches; `syncDefaultBackend` is the `pseudo` branch of `outcome`. The invariant, closure completeness
+(`closure_complete_items`, `closure_complete_declarers`: they quantify over every member of `validSorted`, the
+pseudo source included) and partial = full hold for it because it is one more declaration source. -/
+theorem partial_eq_full_history_opt_partial (rev : Rev) (hrev : 2 ≤ rev) (db : Option (String × String))
+    (batches : List (List Op)) (hne : batches ≠ []) (hok : HistOK rev (optWorld db, {}) batches) :
+    ObsEq (runHistoryOpt rev db batches).2.st (syncFull rev (runHistoryOpt rev db batches).1) ∧
+      Linked (runHistoryOpt rev db batches).1 (runHistoryOpt rev db batches).2.st := by
+  have heq : runHistoryOpt rev db batches = batches.foldl (runBatch rev) (optWorld db, {}) := rfl
+  rw [heq]
+  have hwf : (optWorld db).WF := by
+    cases db with
+    | none => simp [optWorld, World.WF]
+    | some q => obtain ⟨ns, svc⟩ := q; simp [optWorld, World.WF]
+  have hg : Good rev (optWorld db, ({} : Ctl)) := ⟨hwf, Or.inl rfl⟩
+  obtain ⟨_, h⟩ := good_history rev hrev batches _ hg hok
+  have hf := first_false_history rev batches (optWorld db, ({} : Ctl)) (Or.inl hne)
+  rcases h with h | h
+  · rw [hf] at h; cases h
+  · exact h
+
+/-- the pseudo source is always "valid" (it is not read through the cache filter `IsValidIngress`; the class
+annotation of `optIngress` stands for that), whatever IngressClasses the cluster has -/
+theorem optIngress_valid (w : World) (ns svc : String) : w.valid (optIngress ns svc) = true := by
+  simp [World.valid, optIngress, ourClass]
+
 /-- the batch the watchers model accumulates describes the change of the cluster (hypothesis of the step
 theorems), unless an event asked for a full sync -/
 theorem watchers_describe (w : World) (ops : List Op) (hwf : w.WF)
@@ -378,6 +412,45 @@ def hops : List (List Op) :=
 example : (runHistory 2 hops).1.ings.map (·.key) = ["d/i2", "d/i3"] ∧
     needFull (runHistory 2 [hops.head!]).2 ([Op.ingDel "d/i1"].foldl applyOp ((runHistory 2 [hops.head!]).1, {})).2 = false ∧
     (runHistory 2 hops).2.st.bm "d_api_8080" = (syncFull 2 (runHistory 2 hops).1).bm "d_api_8080" := by
+  decide +kernel
+
+/-! ### the option --default-backend-service -/
+
+def svcWeb : Service := ⟨"d/web", [⟨"http", 80, "8080"⟩, ⟨"adm", 81, "adm"⟩], []⟩
+/-- started with `--default-backend-service=d/web`; the service exists -/
+def wo0 : World := { ings := [optIngress "d" "web", i1], svcs := [svcApp, svcWeb] }
+/-- the service goes away (service and endpoints events) -/
+def wo1 : World := { wo0 with svcs := [svcApp] }
+def bo1 : Batch := { links := [⟨.svc, "d/web"⟩, ⟨.ep, "d/web"⟩] }
+
+/-- `syncDefaultBackend` on the model: the pseudo source sorts first, takes the FIRST port of the service, touches
+the backend, leaves the default host without a live entry, is tracked with the default host, the service and the
+endpoints; when the service goes the tracker returns the pseudo source, it is re-read (`resyncList`) and the partial
+sync equals the full one; the links survive the failure (bfa2c57), so the service is followed when it comes back -/
+theorem opt_default_backend :
+    (wo0.validSorted.map (·.key)) = ["/<default-backend>", "d/i1"] ∧
+    (syncFull 2 wo0).hostLive defaultHost = false ∧
+    ((syncFull 2 wo0).bm "d_web_8080").map (·.what) = ["default-backend"] ∧
+    queryOut (syncFull 2 wo0).tr [⟨.svc, "d/web"⟩] =
+      [⟨.back, "d_web_8080"⟩, ⟨.ep, "d/web"⟩, ⟨.svc, "d/web"⟩, ⟨.ing, "/<default-backend>"⟩, ⟨.host, defaultHost⟩] ∧
+    (resyncList wo1 bo1 (dirty wo1 bo1 (syncFull 2 wo0))).map (·.key) = ["/<default-backend>"] ∧
+    (syncPartial 2 wo1 bo1 (syncFull 2 wo0)).bm "d_web_8080" = [] ∧
+    (syncPartial 2 wo1 bo1 (syncFull 2 wo0)).hm defaultHost = (syncFull 2 wo1).hm defaultHost ∧
+    (syncPartial 2 wo1 bo1 (syncFull 2 wo0)).hm "a.local" = (syncFull 2 wo1).hm "a.local" ∧
+    (resyncList wo0 bo1 (dirty wo0 bo1 (syncPartial 2 wo1 bo1 (syncFull 2 wo0)))).map (·.key) = ["/<default-backend>"] ∧
+    (syncPartial 2 wo0 bo1 (syncPartial 2 wo1 bo1 (syncFull 2 wo0))).bm "d_web_8080" = (syncFull 2 wo0).bm "d_web_8080" ∧
+    (syncPartial 2 wo0 bo1 (syncPartial 2 wo1 bo1 (syncFull 2 wo0))).hm defaultHost = (syncFull 2 wo0).hm defaultHost := by
+  decide +kernel
+
+/-- non-vacuity of `partial_eq_full_history_opt_partial`: the same history as operations -/
+def hopsOpt : List (List Op) :=
+  [[.svcSet svcApp, .svcSet svcWeb, .ingSet i1], [.svcDel "d/web"], [.svcSet svcWeb]]
+
+example : (runHistoryOpt 2 (some ("d", "web")) hopsOpt).1.ings.map (·.key) = ["/<default-backend>", "d/i1"] ∧
+    (runHistoryOpt 2 (some ("d", "web")) (hopsOpt.take 2)).2.st.bm "d_web_8080" = [] ∧
+    (runHistoryOpt 2 (some ("d", "web")) hopsOpt).2.st.bm "d_web_8080" =
+      (syncFull 2 (runHistoryOpt 2 (some ("d", "web")) hopsOpt).1).bm "d_web_8080" ∧
+    ((runHistoryOpt 2 (some ("d", "web")) hopsOpt).2.st.bm "d_web_8080").map (·.what) = ["default-backend"] := by
   decide +kernel
 
 end Witness
